@@ -71,3 +71,10 @@ def run(ctx):
 
 # sensitivity pack (thorough tier): each seeded edit must be reported by the named rule instance
 MUTANTS = [{'name': 'number-table-gated-on-sat-index', 'file': 'src/index/updater/inscription_updater.rs', 'old': '        self\n          .inscription_number_to_sequence_number\n          .insert(inscription_number, sequence_number)?;', 'new': '        if index.index_sats {\n          self\n            .inscription_number_to_sequence_number\n            .insert(inscription_number, sequence_number)?;\n        }', 'expect': ('R15.1', 'update_inscription_location', 'INSCRIPTION_NUMBER_TO_SEQUENCE_NUMBER')}]
+
+
+# behaviour-preserving pack (thorough tier)
+NEUTRAL = [
+  {'name': 'commit: satpoint literal inlined', 'file': 'src/index/updater.rs', 'old': '            let satpoint = SatPoint { outpoint, offset };\n            sequence_number_to_satpoint.insert(sequence_number, &satpoint.store())?;', 'new': '            sequence_number_to_satpoint.insert(sequence_number, &SatPoint { outpoint, offset }.store())?;'},
+  {'name': 'inscription number: arms swapped under !cursed', 'file': 'src/index/updater/inscription_updater.rs', 'old': '        let inscription_number = if cursed {\n          let number: i32 = self.cursed_inscription_count.try_into().unwrap();\n          self.cursed_inscription_count += 1;\n          -(number + 1)\n        } else {\n          let number: i32 = self.blessed_inscription_count.try_into().unwrap();\n          self.blessed_inscription_count += 1;\n          number\n        };', 'new': '        let inscription_number = if !cursed {\n          let number: i32 = self.blessed_inscription_count.try_into().unwrap();\n          self.blessed_inscription_count += 1;\n          number\n        } else {\n          let number: i32 = self.cursed_inscription_count.try_into().unwrap();\n          self.cursed_inscription_count += 1;\n          -(number + 1)\n        };'},
+]
